@@ -217,6 +217,20 @@ theorem subst_roundtrip {σ : Nat → Bytes → Nat × Bytes} (hσ : SubstOk σ)
     parseExpr (tokens (format (subst σ t))) = some (subst σ t) :=
   expr_roundtrip _ (producible_subst hσ t h)
 
+/-- **Nothing but the values changes in the text**: the printed form of the substituted tree is the printed form of the
+original with exactly the literal lexemes replaced – every keyword, operator, identifier, parenthesis and blank stays. -/
+theorem format_subst_exact (σ : Nat → Bytes → Nat × Bytes) (t : Expr) :
+    format (subst σ t) = (format t).map (substLex σ) := format_subst σ t
+
+/-- **Different producible trees never print alike**: the printer is injective on the image of the parser (so no two
+statements with different precedence relations, operands or operators share a printed form). -/
+theorem format_injective (t₁ t₂ : Expr) (h₁ : Producible t₁) (h₂ : Producible t₂)
+    (h : tokens (format t₁) = tokens (format t₂)) : t₁ = t₂ := by
+  have a := expr_roundtrip t₁ h₁
+  rw [h, expr_roundtrip t₂ h₂] at a
+  injection a with a
+  exact a.symm
+
 /-- **Everything the parser returns is producible** (for token lists as the tokenizer yields them: number tokens are
 unsigned and not empty). -/
 theorem parse_producible (ts : List Tok) (t : Expr) (hok : AllOk ts) (h : parseExpr ts = some t) : Producible t :=
